@@ -773,7 +773,7 @@ func TestVerif_C13_OnlineStake(t *testing.T) {
 //
 // A running node cannot hold that many rounds unflushed by parking the flush timer: every block's delta contains at
 // least the rewards pool account (StartEvaluator always Puts it), so after 128 rounds pendingDeltasFlushThreshold
-// forces a commit whatever lastFlushTime says (measured: a parked node never gets beyond 128+MaxAcctLookback rounds).
+// forces a commit whatever lastFlushTime says (scheduleCommit / produceCommittingTask; engine gotcha 1).
 // Commits of up to 1000 rounds (initializeCachesRoundFlushInterval) happen in trackerRegistry.replay: a node whose
 // tracker DB is behind its block DB - the documented recovery of an archival node after its tracker database was
 // removed - replays the blocks from the tracker round and flushes once at the end (latest - MaxAcctLookback rounds
